@@ -39,7 +39,12 @@ func (r *c19Run) answer(a string) (*vhdr.Header, error) {
 	if len(parts) == 2 {
 		fmt.Sscanf(parts[1], "%d", &h)
 	}
+	r.g.softAll = parts[0] == "softnopath"
 	switch parts[0] {
+	case "softnopath": // soft-failing forged head AND no intermediate header verifies: the descent bottoms out at the subjective head
+		c := r.chain[h-1]
+		return &vhdr.Header{Chain: c.Chain, H: c.H, T: c.T, Prev: c.Prev, Salt: 3, VK: vhdr.VKVerr1},
+			&header.VerifyError{Reason: errors.New("scripted soft"), SoftFailure: true}
 	case "ok":
 		return r.chain[h-1], nil
 	case "soft":
@@ -124,6 +129,64 @@ var c19case int
 
 func nextCase() int { c19case++; return c19case }
 
+// Head() with its network request in flight while gossip delivers (and stores) the very header the request will
+// answer: afterwards nothing may stay pending, the subjective head is the store head, and a stale gossip header
+// below it is refused.
+func c19HeadRace(storeTo, extra int) {
+	ctx := context.Background()
+	run := newC19(storeTo, 2*time.Hour, 600*time.Second)
+	run.a2 = fmt.Sprintf("ok:%d", storeTo+1)
+	run.g.headGate = make(chan struct{})
+	done := make(chan string, 1)
+	go func() {
+		h, err := run.s.Head(ctx)
+		if err != nil || h == nil {
+			done <- "err"
+			return
+		}
+		done <- utoa(h.H)
+	}()
+	time.Sleep(20 * time.Millisecond) // the request is in flight
+	arr := "ok"
+	if err := run.s.VerifIncomingNetworkHead(ctx, run.chain[storeTo]); err != nil {
+		arr = "err"
+	}
+	close(run.g.headGate)
+	res := "hang"
+	select {
+	case res = <-done:
+	case <-time.After(2 * time.Second):
+	}
+	// the chain keeps growing by gossip
+	for h := storeTo + 2; h <= storeTo+1+extra && h <= c19N; h++ {
+		_ = run.s.VerifIncomingNetworkHead(ctx, run.chain[h-1])
+	}
+	time.Sleep(20 * time.Millisecond)
+	subj := uint64(0)
+	run.a1, run.a2 = "fail", "fail" // the public view: Head() of a recent subjective head needs no network
+	if lh, e := run.s.Head(ctx); e == nil && lh != nil {
+		subj = lh.H
+	}
+	var pend []string
+	for _, rg := range run.s.VerifPendingHeights() {
+		for _, h := range rg {
+			pend = append(pend, utoa(h))
+		}
+	}
+	ps := strings.Join(pend, ",")
+	if ps == "" {
+		ps = "-"
+	}
+	// a stale forged header at a height the store already holds
+	c := run.chain[storeTo+1]
+	stale := &vhdr.Header{Chain: c.Chain, H: c.H, T: c.T, Prev: c.Prev, Salt: 6}
+	sv := "refuse"
+	if err := run.s.VerifIncomingNetworkHead(ctx, stale); err == nil {
+		sv = "accept"
+	}
+	emit("C19 kind=headrace store=%d extra=%d => head=%s arrive=%s subj=%d pending=%s stale=%s", storeTo, extra, res, arr, subj, ps, sv)
+}
+
 // concurrent callers share one head request and its result
 func c19Flight(n int, answer string, prior string) {
 	ctx := context.Background()
@@ -180,7 +243,7 @@ func runC19(tier string, r *rng) {
 		case 1:
 			return fmt.Sprintf("soft:%d", 21+r.intn(39))
 		case 2:
-			return fmt.Sprintf("softbad:%d", 22+r.intn(38))
+			return []string{"softbad", "softnopath"}[r.intn(2)] + fmt.Sprintf(":%d", 22+r.intn(38))
 		default:
 			return fmt.Sprintf("ok:%d", 1+r.intn(c19N))
 		}
@@ -191,6 +254,8 @@ func runC19(tier string, r *rng) {
 	c19Case(r, 20, m30, []string{"head fail fail", "head ok:10 fail", "head ok:59 fail", "head fail ok:60"})
 	c19Case(r, 20, m30, []string{"head ok:30 fail", "head ok:40 fail"}) // peers' head is expired as well
 	c19Case(r, 0, h2, []string{"head fail fail", "head ok:5 fail", "head ok:58 fail", "head fail fail"})
+	// soft-failing network heads through the recency path: one with a path (adopted after bifurcation), forged ones without
+	c19Case(r, 20, h2, []string{"head fail soft:40", "head fail softbad:50", "head fail softnopath:55", "head fail softnopath:42", "head fail ok:59"})
 	k := 60
 	if tier == "thorough" {
 		k = 1500
@@ -217,5 +282,7 @@ func runC19(tier string, r *rng) {
 		c19Flight(n, "ok:40", "fail")  // a failed request earlier, then a shared successful one
 		c19Flight(n, "fail", "ok:30")  // a successful request earlier, then a shared failing one
 		c19Flight(n, "softbad:44", "") // the shared answer is a soft-failing forged head: nobody may adopt it
+		c19Flight(n, "softnopath:44", "")
+		c19HeadRace(20, 2*n)
 	}
 }
